@@ -101,12 +101,14 @@ theorem encodeItems_append (a : List Bytes) (v : Bytes) :
   | nil => simp [encodeItems]
   | cons x r ih => simp [encodeItems, ih]
 
-/-- the builder loop keeps "the buffer is the encoding of items of at most 255 bytes", provided unquoting does not
-produce an item longer than 255 bytes (or the code tests the length again after unquoting) -/
+/-- the builder loop keeps "the buffer is the encoding of items of at most 255 bytes": an unquoted item is at most 255
+bytes long because the code tests it (commit 72eac47; regenerated facts) — or, for the code before that commit, under the
+hypothesis that unquoting does not produce a longer item -/
 theorem buildGo_items (trim : Bytes → Bytes) (unq : Bytes → Option Bytes)
     (htrim : ∀ v, (trim v).length ≤ v.length)
     (hmax : Generated.C13.fieldMaxLen ≤ 255)
-    (hunq : Generated.C13.fieldLenTestedAfterUnquote = true ∨ ∀ v w, unq v = some w → w.length ≤ 255) :
+    (hunq : (Generated.C13.fieldLenTestedAfterUnquote = true ∧ Generated.C13.fieldMaxLenAfterUnquote ≤ 255) ∨
+      ∀ v w, unq v = some w → w.length ≤ 255) :
     ∀ (parts : List Bytes) (i : Nat) (acc : List Bytes) (f : Bytes), (∀ v ∈ acc, v.length ≤ 255) →
       buildGo trim unq parts i (encodeItems acc) = some f →
       ∃ its, f = encodeItems its ∧ (∀ v ∈ its, v.length ≤ 255) ∧ its.length = acc.length + parts.length
@@ -122,37 +124,42 @@ theorem buildGo_items (trim : Bytes → Bytes) (unq : Bytes → Option Bytes)
       simp only [] at h
       split at h
       · cases h
-      · -- the value after the optional unquoting
-        split at h
+      · split at h
         · cases h
         · rename_i w hw
-          split at h
-          · cases h
-          · rename_i htest
-            have hwl : w.length ≤ 255 := by
-              have hp : (trim p).length ≤ 255 := by have := htrim p; omega
+          have hwl : w.length ≤ 255 := by
+            have hp : (trim p).length ≤ 255 := by have := htrim p; omega
+            split at hw
+            · rename_i c tl heq
               split at hw
-              · rename_i c tl heq
+              · -- quoted: the unquoted value
                 split at hw
-                · rcases hunq with ht | hu
-                  · simp only [ht, true_and] at htest; omega
-                  · exact hu _ _ hw
                 · cases hw
-                  first | exact hp | (rw [heq] at hp; exact hp) | (rw [← heq]; exact hp)
+                · rename_i u hu
+                  split at hw
+                  · cases hw
+                  · rename_i htest
+                    cases hw
+                    rcases hunq with ⟨ht, hm⟩ | hun
+                    · simp only [ht, true_and, Nat.not_lt] at htest; omega
+                    · exact hun _ _ hu
               · cases hw
-                first | exact hp | (rename_i heq; rw [heq]; simp)
-            rw [← encodeItems_append] at h
-            obtain ⟨its, h1, h2, h3⟩ := buildGo_items trim unq htrim hmax hunq rest (i + 1) (acc ++ [w]) f
-              (by intro v hv; rcases List.mem_append.mp hv with hv | hv
-                  · exact hacc v hv
-                  · simp at hv; subst hv; exact hwl) h
-            exact ⟨its, h1, h2, by simp at h3 ⊢; omega⟩
+                first | exact hp | (rw [heq] at hp; exact hp) | (rw [← heq]; exact hp)
+            · cases hw
+              first | exact hp | (rename_i heq; rw [heq]; simp)
+          rw [← encodeItems_append] at h
+          obtain ⟨its, h1, h2, h3⟩ := buildGo_items trim unq htrim hmax hunq rest (i + 1) (acc ++ [w]) f
+            (by intro v hv; rcases List.mem_append.mp hv with hv | hv
+                · exact hacc v hv
+                · simp at hv; subst hv; exact hwl) h
+          exact ⟨its, h1, h2, by simp at h3 ⊢; omega⟩
 
-/-- **what `NewFieldsFromKVString` builds is well-formed** under the same hypothesis -/
+/-- **what `NewFieldsFromKVString` builds is well-formed** -/
 theorem build_WF (trim : Bytes → Bytes) (unq : Bytes → Option Bytes)
     (htrim : ∀ v, (trim v).length ≤ v.length)
     (hmax : Generated.C13.fieldMaxLen ≤ 255)
-    (hunq : Generated.C13.fieldLenTestedAfterUnquote = true ∨ ∀ v w, unq v = some w → w.length ≤ 255)
+    (hunq : (Generated.C13.fieldLenTestedAfterUnquote = true ∧ Generated.C13.fieldMaxLenAfterUnquote ≤ 255) ∨
+      ∀ v w, unq v = some w → w.length ≤ 255)
     (parts : List Bytes) (f : Bytes) (h : build trim unq parts = some f) : WF f := by
   unfold build at h
   split at h
@@ -160,6 +167,17 @@ theorem build_WF (trim : Bytes → Bytes) (unq : Bytes → Option Bytes)
   · rename_i hpar
     obtain ⟨its, h1, h2, h3⟩ := buildGo_items trim unq htrim hmax hunq parts 0 [] f (by simp) h
     exact ⟨its, h2, by simp at h3; omega, h1⟩
+
+theorem fromKV_WF (split : Bytes → Option (List Bytes)) (trim : Bytes → Bytes) (unq : Bytes → Option Bytes)
+    (htrim : ∀ v, (trim v).length ≤ v.length)
+    (hmax : Generated.C13.fieldMaxLen ≤ 255)
+    (hunq : (Generated.C13.fieldLenTestedAfterUnquote = true ∧ Generated.C13.fieldMaxLenAfterUnquote ≤ 255) ∨
+      ∀ v w, unq v = some w → w.length ≤ 255)
+    (s f : Bytes) (h : fromKV split trim unq s = some f) : WF f := by
+  unfold fromKV at h
+  split at h
+  · cases h
+  · exact build_WF trim unq htrim hmax hunq _ f h
 
 /-! ### the write packet iterator stores well-formed field lists -/
 open Logrange.Wire
